@@ -66,7 +66,9 @@ def run_group(acc, wd, gi, rng, seed):
     other = os.path.join(root, 'elsewhere')
     os.makedirs(src)
     os.makedirs(other)
-    fmt = 'isar' if gi % 4 == 3 else 'prophy'
+    sel = (gi + seed) % 4           # the variants rotate over shards, so the quick tier (2 groups per shard) has all
+    fmt = 'isar' if sel == 3 else 'prophy'
+    acc.count('groups:' + fmt)
     patch = None
     # group A: a (possibly split) schema; group B: an unrelated single-file schema
     schA = S.random_schema(random.Random(rng.random()), ntypes=rng.randint(4, 12), prefix='A',
@@ -91,10 +93,15 @@ def run_group(acc, wd, gi, rng, seed):
             else:
                 open(patch, 'a').write(ptxtb)
         # both inputs define a node of the same name that the patch file restructures
-        shared = ('<struct name="Shared"><member name="n" type="u32"/><member name="x" type="u8"><dimension size="3"/>'
+        # ... and use the same expression TEXTS over constants of the same names that have different values per file
+        shared = ('<constant name="SH_DEPTH" value="%d"/><constant name="SH_SLOTS" value="SH_DEPTH + 1"/>'
+                  '<enum name="ShE"><enum-member name="ShE_A" value="SH_DEPTH*2"/></enum>'
+                  '<struct name="ShArr"><member name="x" type="u16"><dimension size="SH_DEPTH*3"/></member>'
+                  '<member name="y" type="u8"><dimension size="SH_SLOTS"/></member></struct>'
+                  '<struct name="Shared"><member name="n" type="u32"/><member name="x" type="u8"><dimension size="3"/>'
                   '</member><member name="t" type="u16"/></struct>\n</x>')
-        xml = xml.replace('</x>', shared)
-        xmlb = xmlb.replace('</x>', shared)
+        xml = xml.replace('</x>', shared % 3)
+        xmlb = xmlb.replace('</x>', shared % 5)
         open(p, 'w').write(xml)
         patch = patch or os.path.join(src, 'a.patch')
         open(patch, 'a').write('Shared dynamic x n\nShared type t u64\n')
@@ -102,7 +109,7 @@ def run_group(acc, wd, gi, rng, seed):
         pb = os.path.join(src, 'b.xml')
         open(pb, 'w').write(xmlb)
     else:
-        if len(schA.defs) >= 3 and gi % 2 == 0:
+        if len(schA.defs) >= 3 and sel % 2 == 0:
             for fn, part, incs in make_split(schA, rng):
                 p = os.path.join(src, 'a' + fn)
                 open(p, 'w').write(file_text(schA, part, incs, prefix=lambda f: 'a' + f))
@@ -113,7 +120,7 @@ def run_group(acc, wd, gi, rng, seed):
             inputsA = [p]
         pb = os.path.join(src, 'b.prophy')
         open(pb, 'w').write(schB.to_prophy())
-        if gi % 4 == 1:
+        if sel == 1:
             for q in (inputsA[-1], pb):
                 open(q, 'a').write('struct Shared { u32 n; u8 x[3]; u16 t; };\n')
             patch = os.path.join(src, 'a.patch')
@@ -200,6 +207,70 @@ def run_group(acc, wd, gi, rng, seed):
     shutil.rmtree(root, ignore_errors=True)
 
 
+SACK_SCALARS = ['uint8_t', 'uint16_t', 'uint32_t', 'uint64_t', 'int16_t', 'int32_t', 'float', 'double']
+
+
+def run_sack(acc, wd, gi, rng, seed):
+    """C++ headers as input (--sack): main.hpp includes its sibling "types.h"; an unrelated types.h lies in the other
+    working directory. Same outputs whatever the working directory, the spelling of the path, the hash seed."""
+    root = os.path.join(wd, 's%d' % gi)
+    src, other = os.path.join(root, 'src'), os.path.join(root, 'other')
+    os.makedirs(src)
+    os.makedirs(other)
+
+    def struct(name, types):
+        mem = []
+        for i in range(rng.randint(1, 5)):
+            t = rng.choice(types)
+            mem.append('    %s m%d%s;' % (t, i, '[%d]' % rng.randint(2, 4) if rng.random() < 0.3 else ''))
+        return 'struct %s\n{\n%s\n};\n' % (name, '\n'.join(mem))
+    types_h = ('#include <stdint.h>\ntypedef %s TId;\nenum Kind { Kind_A = %d, Kind_B = %d };\n' %
+               (rng.choice(SACK_SCALARS[:4]), rng.randint(0, 3), rng.randint(4, 900)) +
+               struct('Point', SACK_SCALARS + ['TId']) + struct('Pair', SACK_SCALARS + ['TId', 'Point', 'Kind']))
+    main_h = ('#include "types.h"\n' + struct('Msg', SACK_SCALARS + ['TId', 'Point', 'Pair', 'Kind']) +
+              'union Any\n{\n    uint8_t a;\n    Point p;\n    %s c;\n};\n' % rng.choice(SACK_SCALARS) +
+              struct('Outer', ['Msg', 'Any', 'Pair', 'uint8_t']))
+    open(os.path.join(src, 'types.h'), 'w').write(types_h)
+    open(os.path.join(src, 'main.hpp'), 'w').write(main_h)
+    open(os.path.join(other, 'types.h'), 'w').write(
+        '#include <stdint.h>\ntypedef uint64_t TId;\nenum Kind { Kind_A = 77 };\nstruct Point { TId q; };\n'
+        'struct Pair { Point a; Point b; Point c; };\n')
+    main = os.path.join(src, 'main.hpp')
+    runs = []
+    for tag, cwd, path, hs in (('src-relative', src, 'main.hpp', '0'), ('src-absolute', src, main, '1'),
+                               ('other-relative', other, os.path.relpath(main, other), '0'),
+                               ('other-absolute', other, main, '2'), ('root-relative', root, 'src/main.hpp', 'random')):
+        out = os.path.join(root, 'out_' + tag)
+        os.makedirs(out)
+        args = ['--quiet', '--sack']
+        for o in OUTS:
+            args += [o, out]
+        rc, so, se = pc.run_cli(args + [path], cwd=cwd, hashseed=hs)
+        acc.ev()
+        acc.count('cli_runs')
+        acc.count('sack_runs')
+        acc.sig((gi, seed, 'sack', tag))
+        if rc != 0:
+            if tag == 'src-relative':
+                acc.prereq({'stage': 'cli sack ' + tag, 'rc': rc, 'stderr': se[-400:], 'types.h': types_h, 'main.hpp': main_h})
+                return
+            acc.violation(PROP, 'sack-input-fails-from-another-directory', {'run': tag, 'rc': rc, 'stderr': se[-500:],
+                                                                            'types.h': types_h, 'main.hpp': main_h, 'seed': seed})
+            continue
+        runs.append((tag, snapshot(out), se))
+    ref = runs[0][1]
+    if not any(fn.endswith('.py') for fn in ref):
+        acc.prereq({'stage': 'sack produced no output', 'files': sorted(ref)})
+        return
+    for tag, snap, se in runs[1:]:
+        for fn in set(ref) | set(snap):
+            acc.count('files_compared')
+            if ref.get(fn) != snap.get(fn):
+                acc.violation(PROP, 'output-differs:sack:%s:%s' % (tag.split('-')[0], fn.split('.', 1)[-1]),
+                              {'run': tag, 'file': fn, 'types.h': types_h, 'main.hpp': main_h, 'stderr': se[-300:], 'seed': seed})
+    shutil.rmtree(root, ignore_errors=True)
+
+
 def run_layouts(acc, wd, gi, rng, seed):
     """Independent inputs in different directories whose includes resolve through the includer's own directory
     (same include string, different sibling files) and through a trailing -I directory; alone vs together, every
@@ -271,11 +342,12 @@ def run_shard(spec):
         for gi in range(spec['groups']):
             run_group(acc, wd, gi, rng, spec['seed'])
         run_layouts(acc, wd, 0, rng, spec['seed'])
+        run_sack(acc, wd, 0, rng, spec['seed'])
     return acc.done()
 
 
 def finish(ctx, merged, specs):
-    missing = [k for k in ('cli_runs', 'files_compared', 'in_process_runs', 'layout_runs') if not merged['counters'].get(k)]
+    missing = [k for k in ('cli_runs', 'files_compared', 'in_process_runs', 'layout_runs', 'sack_runs', 'groups:isar', 'groups:prophy') if not merged['counters'].get(k)]
     if merged['counters'].get('prerequisite_failures', 0) > merged['counters'].get('cli_runs', 0) // 4:
         missing.append('too many prerequisite failures')
     if 'same-named-patched-node-in-two-inputs' not in merged.get('features', []) and not (specs and specs[0]['kind'] == 'replay'):
